@@ -17,6 +17,7 @@ below, as long as `h` more frames fit under `MAX_STACK_SIZE`.  All results are s
 observer's bookkeeping (`C19.forget`), which the evaluator never reads (`C19.runN_forget`).
 -/
 import UH.Proofs.Unforced
+import UH.Model.EvalF
 import UH.Properties.C19
 namespace UH.BigStep
 open UH Unforced C19
@@ -61,13 +62,6 @@ theorem Reaches.step {m m' : MState} (hrun : m.status = .running) (h : Reaches (
   exact e
 
 /-! ### the big-step judgment -/
-
-inductive Task where
-  | comp (c : Comp Res)
-  | frame (t : TId)
-
-def setRequestor (s : Store) (t' : TId) (b : Option TId) : Store :=
-  { s with cells := s.cells.modify t' (fun c => { c with requestor := b }) }
 
 inductive Eval : Store → World → Task → Nat → Except ErrV Res → Store → World → Prop
   | ret (s w h r) : Eval s w (.comp (.ret r)) h (.ok r) s w
